@@ -24,7 +24,7 @@ Record grec (V : Type) := {
 }.
 Arguments g_in_elig {V} _. Arguments g_e {V} _. Arguments g_share {V} _. Arguments g_impact {V} _.
 
-Section Admitted.
+Section AdmittedGeos.
   Context {V : Type} (O : vops V).
   Variables (par : spar V) (gs : list (grec V)).      (* geos in data.df order *)
   Definition geo (i : nat) : grec V :=
@@ -67,7 +67,7 @@ Section Admitted.
   (* installing an empty geo index raises ValueError (get_eligible_assignments) *)
   Definition geo_index_raises : bool := is_nil geo_index.
   Definition admitted_rows : list elig := map (fun i => g_e (geo i)) geo_index.
-End Admitted.
+End AdmittedGeos.
 
 (* ------------------------------------------------------------------------ *)
 Definition design := (set * set)%type.
